@@ -229,6 +229,31 @@ def _srcline(path, line, span=0):
         return ""
 
 
+_LOOP_SEEN = {}
+_LOOP_ORD = None
+LOOP_ORD_FILE = os.path.join(VERIF, "spec", "loop_ordinals.json")
+
+
+def _loop_ordinals():
+    """recorded position of every contracted loop on the unchanged tree
+    (spec/loop_ordinals.json, written by `XV_RECORD_LOOPS=1 xv ...`)"""
+    global _LOOP_ORD
+    if _LOOP_ORD is None:
+        try:
+            _LOOP_ORD = json.load(open(LOOP_ORD_FILE))
+        except (OSError, ValueError):
+            _LOOP_ORD = {}
+    return _LOOP_ORD
+
+
+def record_loop_ordinals():
+    if not os.environ.get("XV_RECORD_LOOPS") or not _LOOP_SEEN:
+        return
+    cur = dict(_loop_ordinals())
+    cur.update(_LOOP_SEEN)
+    json.dump(cur, open(LOOP_ORD_FILE, "w"), indent=1, sort_keys=True)
+
+
 def build_loop_contracts(job, loops, symtab_text):
     """Match declared loop contracts to loops of the freshly compiled binary
     (by function and by an anchor text on the loop's source line) and resolve
@@ -246,6 +271,20 @@ def build_loop_contracts(job, loops, symtab_text):
                if lc["anchor"] in _srcline(l.get("file", ""), l.get("line", 0), lc.get("span", 1))]
         if "nth" in lc and hit:
             hit = [hit[lc["nth"]]] if lc["nth"] < len(hit) else []
+        key = "%s|%s|%s|%d" % (job["name"].split("#")[0], fn, lc["anchor"], lc.get("nth", 0))
+        rec = _loop_ordinals().get(key)
+        ord_hit = [l for l in cands if rec and rec[1] == len(cands) and l["id"] == rec[0]]
+        if len(hit) == 1 and (not ord_hit or ord_hit[0]["id"] == hit[0]["id"]):
+            _LOOP_SEEN[key] = [hit[0]["id"], len(cands)]
+        elif ord_hit and (len(hit) != 1 or lc["anchor"] in _srcline(ord_hit[0].get("file", ""), ord_hit[0].get("line", 0), lc.get("span", 1))
+                          or "nth" in lc):
+            # a loop header line was edited (its condition, say): the anchor
+            # text no longer matches (or, for one of several loops with the
+            # same header, now selects a different one), but the function
+            # still has the same number of loops - take the loop at the
+            # position recorded on the unchanged tree, so that the edit is
+            # judged by the contract instead of stopping the job
+            hit = ord_hit
         if len(hit) != 1:
             raise ToolError("loop contract for %s anchored at %r matches %d loops "
                             "(contract file out of date with the source)"
@@ -378,6 +417,9 @@ def run_job(scr, job, small=False, trace_prop=None, timeout=None):
             _must(rc, "show-symbol-table", sym, se)
             doc, used = build_loop_contracts(job, loops, sym)
             res.loops_contracted = used
+            record_loop_ordinals()
+            if os.environ.get("XV_LOOPS_ONLY"):
+                raise ToolError("loops-only run (XV_LOOPS_ONLY): contracts matched, nothing discharged")
             b_gb = os.path.join(wd, "b.gb")
             cmd = ["goto-instrument"]
             if dfcc:
